@@ -4,6 +4,8 @@ import (
 	"bytes"
 	"encoding/json"
 	"fmt"
+	abcitypes "github.com/tendermint/tendermint/abci/types"
+	"verif/canon"
 
 	"time"
 
@@ -102,12 +104,18 @@ func c09WalkOp(alphabet []appx.Op, k int) appx.Op {
 	}
 }
 
+// dumpNoMempool renders the consensus state (the mempool scratch state left out).
+func dumpNoMempool(a *app.ShutterApp) string {
+	return canon.Dump(a, &canon.Options{Skip: map[string]bool{"ShutterApp.LastSaved": true, "ShutterApp.Gobpath": true, "ShutterApp.CheckTxState": true}, NilEqualsEmpty: true})
+}
+
 type c09Replay struct {
 	Walk    int       `json:"walk_steps,omitempty"` // >0: the first Walk ops of the long walk precede Last
 	Seed    int       `json:"seed"`
 	Ops     []appx.Op `json:"ops"`
 	Last    appx.Op   `json:"last"`
 	Choices []int     `json:"maporder_choices"`
+	Mempool bool      `json:"mempool_replica,omitempty"` // the violation is between a replica with and one without mempool checks along the walk
 }
 
 // c09Transition checks one transition under all map orders within the bound and
@@ -202,6 +210,7 @@ func c09() *report.Check {
 			"map iteration order is owned through a source rewrite of every range-over-map in app, keyper/shutterevents (regenerated from the current sources by cmd/rewrite); all permutations are offered, a superset of what the Go runtime produces",
 			"replicas are compared per transition from equal states (induction over the history)",
 			"process: at every transition a further replica is restarted from the state saved just before (real PersistToDisk / LoadShutterAppFromFile on the in-memory file system) and must answer and end up like the one that never stopped; seeds include chain ids with built-in fork overrides",
+			"mempool: along the long walk a further replica runs CheckTx (new and recheck) on every transaction before the block that contains it is executed; the others never run it",
 			"wall clock / save timing: at every block end a second replica saves its state (real PersistToDisk on the in-memory file system) while the first does not; both must stay identical",
 		},
 		Shards:  func(bool) int { return 16 },
@@ -224,16 +233,38 @@ func c09() *report.Check {
 					continue
 				}
 				n := buildSeed(w, sd)
+				// a replica whose mempool saw every transaction (twice: gossip and recheck)
+				// before the block that contains it is executed; the first one never runs
+				// the mempool check. Block execution must not depend on that.
+				mp := appx.Clone(n.a)
 				walkLen := 2400
 				for k := 0; k < walkLen; k++ {
 					// sender 0 is kept busy (every other op) so that per-sender state grows large
 					o := c09WalkOp(alphabet, k)
+					if o.Kind != "endblock" {
+						tx := w.Tx(mp, o, n.nonce())
+						mp.CheckTx(abcitypes.RequestCheckTx{Tx: tx})
+						mp.CheckTx(abcitypes.RequestCheckTx{Tx: tx, Type: abcitypes.CheckTxType_Recheck})
+					}
+					resM := w.Step(mp, o, n.nonce())
+					resA := w.Step(appx.Clone(n.a), o, n.nonce())
+					c.Stats.Count("mempool_replica_transitions", 1)
+					if !bytes.Equal(resA.Bytes, resM.Bytes) {
+						c.Violation("C09/replicas-diverge-by-mempool-history/"+o.Kind, fmt.Sprintf("seed %q, step %d of the long walk, op %s: a replica whose mempool checked the block's transactions answers differently from one that never ran the mempool check\nwithout mempool: %v %v\nwith mempool:    %v %v", sd.Name, k, o, resA.Deliver, resA.End, resM.Deliver, resM.End),
+							c09Replay{Seed: wi, Walk: k, Last: o, Mempool: true})
+						break
+					}
 					next, choices, msg := c09Transition(w, n, o, bound, c.Stats)
 					c.Stats.Traces++
 					c.Stats.Count("long_walk_transitions", 1)
 					if msg != "" {
 						c.Violation("C09/replicas-diverge-under-map-order/long-walk/"+o.Kind, fmt.Sprintf("seed %q, step %d of the long walk: %s", sd.Name, k, firstN(msg, 1500)),
 							c09Replay{Seed: wi, Walk: k, Last: o, Choices: choices})
+						break
+					}
+					if dA, dM := dumpNoMempool(next.a), dumpNoMempool(mp); msg == "" && dA != dM {
+						c.Violation("C09/replicas-diverge-by-mempool-history/state", fmt.Sprintf("seed %q, step %d of the long walk, op %s: state differs between a replica with and one without mempool checks\nwithout: %s\nwith:    %s", sd.Name, k, o, firstN(dA, 600), firstN(dM, 600)),
+							c09Replay{Seed: wi, Walk: k, Last: o, Mempool: true})
 						break
 					}
 					n = next
@@ -300,6 +331,28 @@ func c09() *report.Check {
 			}
 			w, seeds := c09World()
 			n := buildSeed(w, seeds[rp.Seed])
+			if rp.Mempool {
+				alphabet := c09Alphabet(5)
+				mp := appx.Clone(n.a)
+				for k := 0; k <= rp.Walk; k++ {
+					o := c09WalkOp(alphabet, k)
+					if o.Kind != "endblock" {
+						tx := w.Tx(mp, o, n.nonce())
+						mp.CheckTx(abcitypes.RequestCheckTx{Tx: tx})
+						mp.CheckTx(abcitypes.RequestCheckTx{Tx: tx, Type: abcitypes.CheckTxType_Recheck})
+					}
+					resM := w.Step(mp, o, n.nonce())
+					resA := w.Step(n.a, o, n.nonce())
+					n.nops++
+					if !bytes.Equal(resA.Bytes, resM.Bytes) {
+						return fmt.Sprintf("step %d (%s): a replica whose mempool checked the transactions answers differently: %v %v vs %v %v", k, o, resM.Deliver, resM.End, resA.Deliver, resA.End)
+					}
+					if dA, dM := dumpNoMempool(n.a), dumpNoMempool(mp); dA != dM {
+						return fmt.Sprintf("step %d (%s): state differs between a replica with and one without mempool checks", k, o)
+					}
+				}
+				return ""
+			}
 			if rp.Walk > 0 {
 				alphabet := c09Alphabet(5)
 				for k := 0; k < rp.Walk; k++ {
